@@ -1,2 +1,7 @@
 import QlibcModel.Props.C15
-#print axioms Qlibc.Props.C15.placeholder
+#print axioms Qlibc.Props.C15.put_fault_atomic
+#print axioms Qlibc.Props.C15.put_no_fault
+#print axioms Qlibc.Props.C15.failed_insert_keeps_contents
+#print axioms Qlibc.Props.C15.get_fault
+#print axioms Qlibc.Props.C15.remove_needs_no_allocation
+#print axioms Qlibc.Props.C15.no_leak_on_failure
